@@ -221,7 +221,7 @@ theorem inv_step {w : World} (h : Inv w) (a : Act) : Inv (step w a) := by
       split
       · exact inv_rewatch (inv_listed h)
       · split
-        · exact inv_fail h _
+        · exact inv_toBackoff h
         · split
           · exact inv_toBackoff h
           · split
@@ -365,7 +365,7 @@ theorem quiet_step_paused {w : World} (hq : Quiet w) (hp : w.paused = true) (a :
       · rename_i hph
         have hs : w.pauseSeen = true := by simp_all
         split
-        · simp [fail, emit, reqCount_cons, Out.isReq]
+        · simp [toBackoff]
         · simp [hs, toBackoff]
       · (first | exact ⟨hq, rfl⟩ | exact ⟨hq, trivial⟩ | simpa using hq)
   case failReq k =>
@@ -482,7 +482,7 @@ theorem firstIsList_step {w : World} (h : FirstIsList w) (a : Act) : FirstIsList
         · rename_i hph
           have hs : w.pauseSeen = true := by simp_all
           split
-          · right; simp [fail, emit, oldestReq, hn, Out.isReq]
+          · right; simp [toBackoff, hn]
           · right; simp [hs, toBackoff, hn]
         · exact Or.inr ⟨hn, hq⟩
     case failReq k =>
